@@ -143,52 +143,7 @@ def g4(F, rep):
     cur = [t for bb, t in b.calls() if strip_generics(callee_def(t)) == "std::io::Cursor::new"]
     rep.add("G4", "gzip:cursor-at-signature", len(cur) == 1 and re.match(r"^index\(var\(src\), RangeFrom\{var\(index\)\}\)$", _arg_desc(b, cur[0], 0)) is not None, "", "Cursor::new(%s)" % (_arg_desc(b, cur[0], 0) if cur else None))
     # ---- gzip header -----------------------------------------------------------------------------
-    g = F.body(SD + "skip_gzip_header")
-    gw = "%s:%s" % (g.file, g.line)
-    spec = SPEC["gzip"]
-    reads = [(bb, t) for bb, t in g.calls() if t["callee"].get("trait") in ("std::io::Read", "byteorder::ReadBytesExt")]
-    first = sorted(reads, key=lambda x: len(g.dominators().get(x[0], ())))[0] if reads else None
-    n0 = alpha.buffer_shape(g, first[1]["args"][1])[0] if first and len(first[1]["args"]) > 1 else None
-    rep.add("G4", "gzip:fixed-header-10", n0 == spec["fixed_header"], gw, "first read is read_exact of %s bytes" % n0)
-    cm = None
-    flags = []
-    for sb in sorted(g.normal_blocks(), key=lambda x: len(g.dominators().get(x, ()))):
-        st = g.term(sb)
-        if st["k"] != "switch":
-            continue
-        d = flow.describe(g, st["d"], names=True)
-        m = re.match(r"^Ne\(var\(buffer\)\[K(\d+)\], K(\d+)\)$", d)
-        if m:
-            from .guard import _leads_only_to_err
-            cm = (int(m.group(1)), int(m.group(2)), _leads_only_to_err(F, g, st["otherwise"]))
-        m = re.match(r"^Ne\(BitAnd\(var\(buffer\)\[K(\d+)\], K(\d+)\), K0\)$", d)
-        if m:
-            arm = _edge_arm(g, sb, st["otherwise"])
-            kinds = []
-            for bb, t in sorted(reads):
-                if bb not in arm:
-                    continue
-                meth = t["callee"]["def"].split("::")[-1]
-                if meth == "read_exact":
-                    n, _, root = alpha.buffer_shape(g, t["args"][1])
-                    if n is None:
-                        dd = flow.describe(g, t["args"][1])
-                        kinds.append("bytes[from_le_bytes]" if "from_le_bytes" in dd else "bytes[?]")
-                    else:
-                        kinds.append("bytes[%s]" % n)
-                elif meth == "read_u8":
-                    # loop until zero?
-                    tb = t.get("t")
-                    z = any(re.match(r"^Ne\(branch\(read_u8\(.*\)\)(\.0)?, K0\)$", flow.describe(g, g.term(x)["d"], names=True) or "") for x in arm if g.term(x)["k"] == "switch")
-                    kinds.append("until-zero" if z else "byte")
-                else:
-                    kinds.append(meth)
-            flags.append((int(m.group(1)), int(m.group(2)), kinds))
-    rep.add("G4", "gzip:method-byte", cm is not None and cm[0] == spec["cm_offset"] and cm[1] == spec["cm_deflate"] and cm[2], gw, "buffer[%s] != %s -> Err: %s" % (cm[0] if cm else None, cm[1] if cm else None, cm[2] if cm else None))
-    want = []
-    for name, mask, kind in spec["optional_in_order"]:
-        want.append((spec["flg_offset"], mask, {"len16le+bytes": ["bytes[2]", "bytes[from_le_bytes]"], "zero-terminated": ["until-zero"], "2 bytes": ["bytes[2]"]}[kind]))
-    rep.add("G4", "gzip:optional-fields-in-order", flags == want, gw, "flag tests in dominance order %s (RFC 1952: %s)" % (flags, want))
+    _gzip(F, rep)
     # ---- zip ---------------------------------------------------------------------------------------
     z = F.body(SD + "ZipLocalFileHeader::create_and_load")
     zw = "%s:%s" % (z.file, z.line)
@@ -268,6 +223,136 @@ def g4(F, rep):
         return any(len(a) == 4 and all(re.match(w, x) for w, x in zip(want, a)) for a in arrays)
     rep.add("G4", "png:length-at+0..+4", has(want_len), iw, "big-endian length assembled from %s" % (arrays[0] if arrays else None))
     rep.add("G4", "png:crc-after-data", has(want_crc), iw, "big-endian CRC assembled from %s" % (arrays[-1] if arrays else None))
+
+
+def _region_dfa(F, fn, start, stop, scope):
+    from .. import proto, lts
+    M = proto.Machine(F, alpha.Consume(scope), "r")
+    b = F.body(fn)
+    M.stops = {(fn, x) for x in b.reachable_from(stop)}     # everything at or after the join
+    n, tr, acc = _explore_from(M, fn, start)
+    return lts.canonical_dfa(n, tr, acc)
+
+
+def _explore_from(M, fn, start):
+    from .. import lts
+    from collections import deque
+    cache = {}
+    s0 = ((fn, start, ()),)
+    ids = {s0: 0}
+    trans, acc = {}, set()
+    dq = deque([s0])
+    while dq:
+        s = dq.popleft()
+        for it in M.frontier(s, cache):
+            if it[0] == "exit":
+                if it[1] != "Err":
+                    acc.add(ids[s])
+                continue
+            _, label, where, binder, nxt = it
+            if nxt not in ids:
+                ids[nxt] = len(ids)
+                dq.append(nxt)
+            trans.setdefault(ids[s], []).append((label, ids[nxt]))
+    return len(ids), trans, acc
+
+
+def _spec_dfa(kind):
+    from .. import lts
+    if kind == "2 bytes":
+        return lts.canonical_dfa(2, {0: [(("fixed", 2), 1)]}, {1})
+    if kind == "len16le+bytes":
+        return lts.canonical_dfa(3, {0: [(("fixed", 2), 1)], 1: [(("var",), 2)]}, {2})
+    if kind == "zero-terminated":
+        return lts.canonical_dfa(2, {0: [(("fixed", 1), 1)], 1: [(("fixed", 1), 1)]}, {1})
+    raise KeyError(kind)
+
+
+def _gzip(F, rep):
+    g = F.body(SD + "skip_gzip_header")
+    gw = "%s:%s" % (g.file, g.line)
+    spec = SPEC["gzip"]
+    scope = [n for n in F.bodies if n.startswith(SD)]
+    # the first thing consumed is the 10-byte fixed header
+    from .. import proto
+    M = proto.Machine(F, alpha.Consume(scope), "r")
+    first = set()
+    for it in M.frontier(M.initial(SD + "skip_gzip_header"), {}):
+        if it[0] == "event":
+            first.add(it[1])
+    rep.add("G4", "gzip:fixed-header-10", first == {("fixed", spec["fixed_header"])}, gw, "first consumption: %s" % sorted(first))
+    # which local holds the header bytes: the buffer of that first read
+    hdr = None
+    for bb, t in sorted(g.calls(), key=lambda x: len(g.dominators().get(x[0], ()))):
+        if t["callee"].get("trait") == "std::io::Read" and t["callee"]["def"].endswith("read_exact"):
+            hdr = alpha.buffer_shape(g, t["args"][1])[2]
+            break
+
+    def byte_of_header(op):
+        """k if the operand is (a copy of) header[k]"""
+        o = flow.origin(g, op, through=("use",))
+        # describe without names expands user variables: header is an array local filled by read_exact
+        p = op_place(op)
+        seen = set()
+        while p is not None and p["l"] not in seen:
+            seen.add(p["l"])
+            idx = [e for e in p["p"] if isinstance(e, dict) and "i" in e]
+            if p["l"] == hdr and idx:
+                return flow.const_eval(g, {"c": {"l": idx[0]["i"], "p": []}})
+            d = g.single_def(p["l"])
+            if d and d[2] == "assign" and d[3]["k"] == "use":
+                p = op_place(d[3]["op"])
+            else:
+                ds = [x for x in g.defs(p["l"]) if x[2] == "assign" and x[3]["k"] == "use"]
+                p = op_place(ds[0][3]["op"]) if len(ds) == 1 and len(g.defs(p["l"])) == 1 else None
+        return None
+
+    cm = None
+    tests = []
+    for sb in sorted(g.normal_blocks(), key=lambda x: len(g.dominators().get(x, ()))):
+        st = g.term(sb)
+        if st["k"] != "switch":
+            continue
+        dp = op_place(st["d"])
+        if dp is None:
+            continue
+        d = g.single_def(dp["l"])
+        if not d or d[2] != "assign" or d[3]["k"] != "binop" or d[3]["op"] not in ("Ne", "Eq"):
+            continue
+        r = d[3]
+        c = flow.const_eval(g, r["r"])
+        lp = op_place(r["l"])
+        if c is None or lp is None:
+            continue
+        ld = g.single_def(lp["l"])
+        f = [x for v, x in st["targets"] if v == 0]
+        if ld and ld[2] == "assign" and ld[3]["k"] == "binop" and ld[3]["op"] == "BitAnd" and c == 0:
+            k = byte_of_header(ld[3]["l"])
+            mask = flow.const_eval(g, ld[3]["r"])
+            if k is not None and mask is not None and f:
+                set_edge, clear_edge = (st["otherwise"], f[0]) if r["op"] == "Ne" else (f[0], st["otherwise"])
+                tests.append((sb, k, mask, set_edge, clear_edge))
+        else:
+            k = byte_of_header(r["l"])
+            if k is not None and f:
+                from .guard import _leads_only_to_err
+                bad_edge = st["otherwise"] if r["op"] == "Ne" else f[0]
+                cm = (k, c, _leads_only_to_err(F, g, bad_edge))
+    rep.add("G4", "gzip:method-byte", cm is not None and cm[0] == spec["cm_offset"] and cm[1] == spec["cm_deflate"] and cm[2], gw,
+            "header[%s] must equal %s else Err: %s" % (cm[0] if cm else None, cm[1] if cm else None, cm[2] if cm else None))
+    got = []
+    for sb, k, mask, set_edge, clear_edge in tests:
+        try:
+            rows = _region_dfa(F, SD + "skip_gzip_header", set_edge, clear_edge, scope)
+        except Exception as e:
+            rows = "UNRECOGNISED-IDIOM: %s" % e
+        got.append((k, mask, rows))
+    want = [(spec["flg_offset"], mask, _spec_dfa(kind)) for name, mask, kind in spec["optional_in_order"]]
+    ok = [(k, m) for k, m, _ in got] == [(k, m) for k, m, _ in want] and all(a[2] == b[2] for a, b in zip(got, want))
+    rep.add("G4", "gzip:optional-fields-in-order", ok, gw,
+            "flag tests on header[k] in dominance order (k, mask): %s — RFC 1952: %s; field shapes %s" % (
+                [(k, m) for k, m, _ in got], [(k, m) for k, m, _ in want],
+                "match" if all(len(got) == len(want) and a[2] == b[2] for a, b in zip(got, want)) else "differ: %s" % [(m, r) for k, m, r in got]))
 
 
 def run(ctx, rep):
